@@ -9,6 +9,7 @@ package main
 
 import (
 	"fmt"
+	"math"
 	"sort"
 
 	"github.com/RoaringBitmap/roaring/v2"
@@ -609,6 +610,12 @@ func postingsProtocol(r *RunCtx) {
 				}
 				if target < lo {
 					target = lo
+				}
+				if c.Prob(1, 25, "post.hugetarget") {
+					// the target is a uint64 while document numbers have 32 bits: a target
+					// beyond every possible document number is a legal way to say "the end"
+					target = []uint64{1 << 32, 1<<32 + lo, 1<<32 | 1, 1<<40 + 3, math.MaxUint64}[c.Choose(5, "post.hugetargetv")]
+					r.count("probe.post.target-beyond-32-bits")
 				}
 				p, err = itr.Advance(target)
 				seq += fmt.Sprintf("A%d ", target)
